@@ -122,7 +122,7 @@ def run_check(prop_id: str, tier: str, jobs: int = 16) -> int:
     meta = mod.META
     shards = mod.plan(tier, seed)
     timeout = float(meta.get("shard_timeout", {}).get(tier, 900))
-    workdir = os.path.join(ROOT, ".work")
+    workdir = os.path.join(ROOT, ".work", f"{prop_id}-{os.getpid()}")
     os.makedirs(workdir, exist_ok=True)
     os.makedirs(os.path.join(ROOT, "evidence"), exist_ok=True)
     os.makedirs(os.path.join(ROOT, "replays"), exist_ok=True)
@@ -168,6 +168,10 @@ def run_check(prop_id: str, tier: str, jobs: int = 16) -> int:
         if "exhaustive" in r:
             exhaustive_flags.append(bool(r["exhaustive"]))
 
+    try:
+        os.rmdir(workdir)
+    except OSError:
+        pass
     if hasattr(mod, "finalize"):
         extra = mod.finalize(tier, seed, results, counters) or {}
         inconclusive.extend(extra.get("inconclusive", []))
@@ -281,7 +285,9 @@ def run_replay(prop_id: str, path: str) -> int:
     with open(path) as fh:
         witness = json.load(fh)
     desc = {"replay": witness}
-    res = _run_one(prop_id, desc, int(witness.get("seed", 0)), 600, os.path.join(ROOT, ".work"), 9999)
+    wd = os.path.join(ROOT, ".work", f"replay-{os.getpid()}")
+    os.makedirs(wd, exist_ok=True)
+    res = _run_one(prop_id, desc, int(witness.get("seed", 0)), 600, wd, 9999)
     if res["_status"] != "ok":
         print(f"INCONCLUSIVE property={prop_id} reason=replay worker {res['_status']} {res.get('_stderr', '')[-800:]}")
         return 2
